@@ -78,6 +78,7 @@ func classify(t reflect.Type, ti *tinfo) {
 type leaves struct {
 	nums    []string
 	strs    []string
+	bytes   []string // the []byte / [N]byte leaves alone (a subset of strs)
 	hasUint bool
 }
 
@@ -121,11 +122,13 @@ func srcLeaves(v reflect.Value, nc vh.NormCfg, l *leaves, timeAsStr, bytesAsStr 
 		if v.IsNil() {
 			if nc.NilToEmpty && t.Elem().Kind() == reflect.Uint8 {
 				l.strs = append(l.strs, "")
+				l.bytes = append(l.bytes, "")
 			}
 			return
 		}
 		if t.Elem().Kind() == reflect.Uint8 {
 			l.strs = append(l.strs, string(v.Bytes()))
+			l.bytes = append(l.bytes, string(v.Bytes()))
 			return
 		}
 		for i := 0; i < v.Len(); i++ {
@@ -136,6 +139,7 @@ func srcLeaves(v reflect.Value, nc vh.NormCfg, l *leaves, timeAsStr, bytesAsStr 
 			b := make([]byte, v.Len())
 			reflect.Copy(reflect.ValueOf(b), v)
 			l.strs = append(l.strs, string(b))
+			l.bytes = append(l.bytes, string(b))
 			return
 		}
 		for i := 0; i < v.Len(); i++ {
@@ -193,6 +197,7 @@ func treeLeaves(v reflect.Value, l *leaves) {
 			b := make([]byte, v.Len())
 			reflect.Copy(reflect.ValueOf(b), v)
 			l.strs = append(l.strs, string(b))
+			l.bytes = append(l.bytes, string(b))
 			return
 		}
 		for i := 0; i < v.Len(); i++ {
@@ -275,21 +280,9 @@ func fieldNames(v reflect.Value, out *[]string) {
 	}
 }
 
-func nonEmpty(a []string) []string {
-	out := make([]string, 0, len(a))
-	for _, x := range a {
-		if x != "" {
-			out = append(out, x)
-		}
-	}
-	return out
-}
-
-// empty strings / byte strings are left out: a nil []byte under NilCollectionToZeroLength may be
-// written as an empty array by the fast paths
 func multisetDiff(a, b []string) string {
-	a = nonEmpty(a)
-	b = nonEmpty(b)
+	a = append([]string(nil), a...)
+	b = append([]string(nil), b...)
 	sort.Strings(a)
 	sort.Strings(b)
 	i, j := 0, 0
@@ -767,6 +760,16 @@ func (c *ctx) one(r *vh.Rng, idx int, wantModel bool) {
 		if d := multisetDiff(sl.strs, tl.strs); d != "" {
 			cj["diff"] = d
 			sum.FailC("trans", "c15:"+F+":strings", "the strings / byte strings of the generic tree differ from those of the value", cj)
+			return
+		}
+	}
+	// a []byte leaf stays a []byte leaf (empty ones included: a nil []byte under NilCollectionToZeroLength is
+	// zero-length BYTES in every format since F05-7 / F15-2) wherever the format keeps byte strings apart
+	s2rF, _ := oF["StringToRaw"].(bool)
+	if (F == "cbor" || F == "simple" || F == "binc" || (F == "msgpack" && weF && !ti.hasTime)) && !n.raw2str && !s2rF {
+		if d := multisetDiff(sl.bytes, tl.bytes); d != "" {
+			cj["diff"] = d
+			sum.FailC("trans", "c15:"+F+":byte-strings", "the []byte leaves of the generic tree differ from the []byte leaves of the value", cj)
 			return
 		}
 	}
